@@ -156,6 +156,10 @@ type Tracer struct {
 	// (origins under an abstract assumption, see ordering.go).
 	Live   *Live
 	LiveFn *ssa.Function
+	// Lift > 0: a parameter of the function the trace started in (no call context) is followed to the argument at
+	// every static call site of that function in the module, up to Lift caller levels ("origins over all callers":
+	// a construct that a refactoring moved into a helper is traced as if it were still inlined in its callers).
+	Lift int
 }
 
 func (w *World) Tracer() *Tracer {
@@ -187,6 +191,111 @@ type tstate struct {
 	t    *Tracer
 	o    *Origin
 	seen map[string]bool
+	// at is the load instruction whose contents are being traced (nil when unknown): a store that is overwritten,
+	// on every path to the load, by a later store to the same location does not reach it (flow-sensitive locals)
+	at     ssa.Instruction
+	stores map[*ssa.Alloc][]allocStore
+	lifted int
+}
+
+type allocStore struct {
+	st     *ssa.Store
+	prefix []string
+}
+
+// rootStores lists the stores into an Alloc and into its field / element addresses with their paths.
+func (st *tstate) rootStores(root *ssa.Alloc) []allocStore {
+	if st.stores == nil {
+		st.stores = map[*ssa.Alloc][]allocStore{}
+	}
+	if s, ok := st.stores[root]; ok {
+		return s
+	}
+	var out []allocStore
+	var walk func(cur ssa.Value, prefix []string, depth int)
+	walk = func(cur ssa.Value, prefix []string, depth int) {
+		refs := cur.Referrers()
+		if refs == nil || depth > 6 {
+			return
+		}
+		for _, ref := range *refs {
+			switch r := ref.(type) {
+			case *ssa.Store:
+				if r.Addr == cur {
+					out = append(out, allocStore{r, prefix})
+				}
+			case *ssa.FieldAddr:
+				if r.X == cur {
+					walk(r, append(append([]string{}, prefix...), fieldElem(cur.Type(), r.Field)), depth+1)
+				}
+			}
+		}
+	}
+	walk(root, nil, 0)
+	st.stores[root] = out
+	return out
+}
+
+// canReach: some execution runs `to` after `from` (same function).
+func canReach(from, to ssa.Instruction) bool {
+	fb, tb := from.Block(), to.Block()
+	if fb == nil || tb == nil {
+		return true
+	}
+	if fb == tb {
+		for _, in := range fb.Instrs {
+			if in == from {
+				return true // from first, then to (or to == from)
+			}
+			if in == to {
+				break
+			}
+		}
+	}
+	seen := map[*ssa.BasicBlock]bool{}
+	stack := append([]*ssa.BasicBlock{}, fb.Succs...)
+	for len(stack) > 0 {
+		b := stack[len(stack)-1]
+		stack = stack[:len(stack)-1]
+		if seen[b] {
+			continue
+		}
+		seen[b] = true
+		if b == tb {
+			return true
+		}
+		stack = append(stack, b.Succs...)
+	}
+	return false
+}
+
+// killed: the store s (at path prefix of root) cannot be what the load st.at reads, because another store that
+// overwrites the same location (its path is a prefix of s's) dominates the load and s cannot execute after it.
+func (st *tstate) killed(root *ssa.Alloc, s ssa.Instruction, prefix, path []string) bool {
+	at := st.at
+	if at == nil || at.Parent() != s.Parent() || at.Block() == nil {
+		return false
+	}
+	isPrefix := func(a, b []string) bool {
+		if len(a) > len(b) {
+			return false
+		}
+		for i := range a {
+			if a[i] != b[i] {
+				return false
+			}
+		}
+		return true
+	}
+	for _, o := range st.rootStores(root) {
+		if ssa.Instruction(o.st) == s || !(isPrefix(o.prefix, prefix) || isPrefix(o.prefix, path)) {
+			continue
+		}
+		if instrDominates(o.st, at) && !canReach(o.st, s) {
+			return true
+		}
+	}
+	return false
 }
 
 // Origins computes the origins of value v (field path nil).
@@ -288,6 +397,33 @@ func (st *tstate) trace(v ssa.Value, path []string, c *tctx) {
 				break
 			}
 		}
+		if st.t.Lift > 0 && st.lifted < st.t.Lift {
+			if callers := st.t.w.CG().Callers[x.Parent()]; len(callers) > 0 {
+				idx := -1
+				for i, p := range x.Parent().Params {
+					if p == x {
+						idx = i
+					}
+				}
+				all := idx >= 0
+				for _, cs := range callers {
+					if cs.Common().IsInvoke() || cs.Common().StaticCallee() != x.Parent() || idx >= len(cs.Common().Args) {
+						all = false
+					}
+				}
+				if all {
+					st.lifted++
+					for _, cs := range callers {
+						old := st.at
+						st.at = nil
+						st.trace(cs.Common().Args[idx], path, &tctx{fn: cs.Caller})
+						st.at = old
+					}
+					st.lifted--
+					return
+				}
+			}
+		}
 		st.leaf("param", x, path)
 	case *ssa.Const:
 		st.leaf("const", x, nil)
@@ -304,7 +440,10 @@ func (st *tstate) trace(v ssa.Value, path []string, c *tctx) {
 		st.traceLoad(v, path, c)
 	case *ssa.UnOp:
 		if x.Op == token.MUL {
+			old := st.at
+			st.at = x
 			st.traceLoad(x.X, path, c)
+			st.at = old
 		} else {
 			if x.Op != token.ARROW {
 				st.o.Ops["op"+x.Op.String()] = true
@@ -397,7 +536,7 @@ func (st *tstate) traceFreeVar(fv *ssa.FreeVar, path []string, c *tctx) {
 
 // storesInto traces every value stored into addr (an Alloc or a derived address) that can affect `path`.
 func (st *tstate) traceLoad(addr ssa.Value, path []string, c *tctx) {
-	key := fmt.Sprintf("L%p|%s|%s", addr, pathStr(path), c.id())
+	key := fmt.Sprintf("L%p|%s|%s|%p", addr, pathStr(path), c.id(), st.at)
 	if st.seen[key] {
 		return
 	}
@@ -452,7 +591,14 @@ func (st *tstate) allocContents(root *ssa.Alloc, cur ssa.Value, prefix []string,
 			}
 			// a store at prefix: relevant if prefix is a prefix of path or path a prefix of prefix
 			if rest, ok := relPath(prefix, path); ok {
+				if st.killed(root, r, prefix, path) {
+					n++ // the location is written (by the overwriting store); this store does not reach the load
+					continue
+				}
+				old := st.at
+				st.at = nil
 				st.trace(r.Val, rest, c)
+				st.at = old
 				n++
 			}
 		case *ssa.FieldAddr:
@@ -476,6 +622,10 @@ func (st *tstate) allocContents(root *ssa.Alloc, cur ssa.Value, prefix []string,
 			// the address escapes into a call (out-parameter such as cdc.MustUnmarshal(b, &x)) — only when passed as argument
 			for _, a := range r.Common().Args {
 				if a == cur {
+					if st.killed(root, r, prefix, path) {
+						n++
+						continue
+					}
 					if _, ok := relPath(prefix, path); ok || pathCompatible(prefix, path) {
 						st.o.Calls[r] = true
 						st.leaf("outparam", r, path)
